@@ -634,6 +634,48 @@ func runC19(c *Ctx) {
 			c.Check(fname(fn)+"#unscheduled-only-if-present", fn.Pos(), bad == 0 && nEarly > 0, ifelse(bad == 0 && nEarly > 0, fmt.Sprintf("all %d returns without scheduling established that the entry is empty, in the memory batch or in the database", nEarly), fmt.Sprintf("%d of %d returns without scheduling (e.g. %s) are taken although the entry is neither empty nor stored: the referring parent gets no dependency on it and is committed before the entry arrives", bad, nEarly, badAt)))
 		}
 	}
+	// ------------------------------------------------------------ Z10
+	c.Rule("C19.Z10", "DECISION", "a request for a trie node is never absorbed by a request for a raw blob of the same hash: (*Sync).schedule merges a new request into a pending one (it only hands its parents on) solely on paths that compared the kinds of the two requests (request.raw) — a raw entry is stored as is and its children are never scheduled. With contract B's code equal to the RLP of contract A's storage root node, A's sub-trie request is merged into B's code request, Pending() reaches 0 and all of A's storage is missing")
+	c.Min(1)
+	{
+		sch := w.Fn("trie", "Sync", "schedule")
+		c.sawFunc(fname(sch))
+		rawF := w.Field("trie", "request", "raw")
+		reqsF := w.Field("trie", "Sync", "requests")
+		upd := map[*ssa.BasicBlock]bool{}
+		for _, fw := range fieldWrites(sch) {
+			if fw.Field == reqsF && fw.Kind == "mapupdate" {
+				upd[fw.Instr.Block()] = true
+			}
+		}
+		nMerge, bad := 0, 0
+		okEnum := enumPaths(sch, 4096, func(pr PathResult) {
+			for b := range pr.Blocks {
+				if upd[b] {
+					return
+				}
+			}
+			nMerge++
+			kinds := false
+			for _, f := range pr.Facts {
+				if derivesFrom(f.Cond, func(v ssa.Value) bool {
+					lf, _ := loadedField(v)
+					return lf == rawF
+				}) {
+					kinds = true
+				}
+			}
+			if !kinds {
+				bad++
+			}
+		})
+		c.sites += nMerge
+		if !okEnum || len(upd) == 0 {
+			c.Undecided(fname(sch)+"#merge-only-same-kind", sch.Pos(), "the paths of schedule could not be enumerated or the insertion into requests was not found")
+		} else {
+			c.Check(fname(sch)+"#merge-only-same-kind", sch.Pos(), bad == 0, ifelse(bad == 0, fmt.Sprintf("all %d merging paths compared request.raw", nMerge), fmt.Sprintf("%d of %d paths merge the new request into a pending one of the same hash without comparing their kinds: a sub-trie request merged into a pending code request is answered as a raw entry, its children are never scheduled, and the sync reports completion with the sub-trie missing", bad, nMerge)))
+		}
+	}
 }
 
 func fieldBaseType(v ssa.Value) types.Type {
